@@ -119,8 +119,10 @@ def _analyze_sequence(
 
 
 # NAME=, NAME+=, NAME[sub]= and NAME[sub]+= with NAME an identifier: the only
-# words bash treats as assignments before a command name.
-_ASSIGNMENT_WORD = re.compile(r"[A-Za-z_][A-Za-z0-9_]*(\[[^\]]*\])?\+?=")
+# words bash treats as assignments before a command name. bash matches brackets
+# inside the subscript (a[[]=] is a command name), so only a subscript without
+# brackets is recognised.
+_ASSIGNMENT_WORD = re.compile(r"[A-Za-z_][A-Za-z0-9_]*(\[[^\[\]]*\])?\+?=")
 
 
 def _is_assignment_word(word: str) -> bool:
